@@ -381,5 +381,10 @@ def run(chk, prog):
     # (character-typed numeric options and value-changing conversions: decided under C20 R7/R8; re-evaluated here)
     from .common import reeval
     reeval(chk, prog, "C20", lambda i: i["rule"] in ("R7", "R8"), "R8", "R8-values-unchanged", 100)
+    # ---- R9: an alias without a value of its own never competes with the primary read back from the saved file -----------------------------------
+    # the saved file names primaries only; an alias that carries a default is "present" on every parse, is notified after the primary (key
+    # order) and overwrites the shared field with its default when the file is read back (alias table: decided under C20 R3; the
+    # no-default clause is re-evaluated here)
+    reeval(chk, prog, "C20", lambda i: i["rule"] == "R3" and "has no default" in i["what"], "R9", "R9-alias-defaults", 3)
     chk.notes.append("C13: option table (%d declarations) x writer type chain x skip list x re-readability, substituted-value "
                      "implication, precision, ordering. Exhaustive over the option table. Not decided: boost's parser." % len(t.options))
